@@ -9,5 +9,6 @@ CONSTANTS
   SyncStates = {"created", "running", "stopped"}
   StrictPolicy = TRUE
   WithEvents = TRUE
+  FlushOnError = TRUE
   ConsistentEnv = TRUE
-INVARIANTS TypeOK Inv_RuntimeEqualsCache Inv_NothingPending Inv_AdjDescribesCreated
+INVARIANTS TypeOK Inv_RuntimeEqualsCache Inv_NothingPending Inv_AdjDescribesCreated Inv_FailedRequestFlushes
